@@ -414,7 +414,7 @@ type isoGen struct {
 	atk      []int // attacker connections opened in this episode (dead or alive: unknown to the generator)
 	thorough bool
 	dollar   bool
-	sweep    [][]byte // thorough: pending truncation sweep (one raw/rawfirst per offset)
+	extra    int // CONNECT packets generated as attack material so far
 }
 
 func (g *isoGen) emit(format string, a ...interface{}) { fmt.Fprintf(g.w, "broker "+format+"\n", a...) }
@@ -422,7 +422,9 @@ func (g *isoGen) emit(format string, a ...interface{}) { fmt.Fprintf(g.w, "broke
 func (g *isoGen) safeByte() byte {
 	for {
 		b := byte(g.r.Intn(256))
-		if b != '/' && b != '$' {
+		// no level separator, no '$' (recorded topic-store findings), no wildcard: a corrupted will
+		// topic with a wildcard is a CONNECT the specification has no opinion about
+		if b != '/' && b != '$' && b != '#' && b != '+' {
 			return b
 		}
 	}
@@ -469,7 +471,8 @@ func (g *isoGen) validPacket(t int) []byte {
 	r := g.r
 	switch t {
 	case 1:
-		return g.connectBytes(900 + r.Intn(50))
+		g.extra++ // a client identifier of its own: two live connections under one identifier are C10's subject
+		return g.connectBytes(900 + g.extra)
 	case 2:
 		return []byte{0x20, 0x02, byte(r.Intn(2)), byte(r.Intn(6))}
 	case 3:
@@ -524,7 +527,9 @@ func (g *isoGen) attack(p []byte) []byte {
 	r := g.r
 	h := hdrLen(p)
 	body := p[h:]
-	switch r.Intn(14) {
+	switch r.Intn(15) {
+	case 14: // a PUBLISH whose topic name contains a wildcard
+		return wPub{qos: r.Intn(3), topic: []byte(pick(r, []string{"w#", "+", "#", "w+"})), id: g.pid(), payload: g.smallPayload()}.encode()
 	case 13: // a QoS 1/2 PUBLISH without packet identifier (identifier 0), addressed to the witness
 		return wPub{qos: 1 + r.Intn(2), topic: []byte("w"), id: 0, payload: g.smallPayload()}.encode()
 	case 0, 1: // truncated at a random offset (also inside the header)
